@@ -631,6 +631,24 @@ Theorem C15_composite_readers_agree : forall m c,
 Proof. exact composite_readers_agree. Qed.
 Print Assumptions C15_composite_readers_agree.
 
+(* ----- the composite reader and writer inside the WOFF2 model (Model/Woff2.v, C11; not changed) are
+   the same functions *)
+From AV Require Import Proofs.CompositeAgreeWoff2.
+Theorem C15_composite_reader_agrees_woff2 : forall c,
+  cgood c ->
+  sim (proj_w2_loop false) (ccomps_read (S (length (remaining c))) c) (W2.read_composite_glyphs (remaining c)).
+Proof. exact composite_reader_agrees_woff2. Qed.
+Print Assumptions C15_composite_reader_agrees_woff2.
+
+Theorem C15_composite_writer_agrees_woff2 : forall m a b c d comps instr,
+  Forall comp_ok comps -> prim_in_range PI16 a = true -> prim_in_range PI16 b = true ->
+  prim_in_range PI16 c = true -> prim_in_range PI16 d = true ->
+  (any_instr comps = true -> len instr <= 65535) ->
+  W2.write_glyph m (W2.GComposite {| W2.bb_xmin := a; W2.bb_ymin := b; W2.bb_xmax := c; W2.bb_ymax := d |} (map proj_w2 comps) instr)
+  = cglyph_write {| cg_bbox := [a; b; c; d]; cg_comps := comps; cg_instr := instr |}.
+Proof. exact composite_writer_agrees_woff2. Qed.
+Print Assumptions C15_composite_writer_agrees_woff2.
+
 (* ----- non-vacuity and the limits of the domain *)
 (* WE_HAVE_INSTRUCTIONS (0x100) on the FIRST of two components only; words + xy args, MORE on the first *)
 Definition cg_ex : cglyph :=
